@@ -152,7 +152,7 @@ def poly_post(pre, args, kwargs, result):
     ctx.check(s1 == s2 and type(back) is type(self), "polyhedron:structure",
               lambda: {"recipe": (ctx.case or {}).get("recipe"), "diff": digest.first_diff(s1, s2), "types": [type(self).__name__, type(back).__name__]})
     ids = [v.id for v in self.variables][1:]
-    box = [v.bounds.as_tuple() for v in self.variables][1:]
+    box = [(int(v.bounds.lower), int(v.bounds.upper)) for v in self.variables][1:]
     if refmodel.box_size(box, 1 << 16) <= (1 << 16):
         rng = _rng(ctx)
         prios = [{rng.choice(ids): rng.choice([-2, -1, 1, 2, 3]) for _ in range(rng.randint(0, 3))} for _ in range(2)] if ids else [{}]
